@@ -76,6 +76,7 @@ type CaseSet struct {
 	Terms    []string // Coq terms
 	Descs    []any    // JSON-able description per case (for replay files)
 	Shard    int
+	Extra    string // further Coq commands evaluated on `cases` after the mismatch list (e.g. premise counts)
 }
 
 func (cs *CaseSet) Add(term string, desc any) {
@@ -107,6 +108,7 @@ func (cs *CaseSet) Write(t *testing.T, dir string) {
 		sb.WriteString("\n].\n")
 		sb.WriteString("Definition M := Eval vm_compute in (" + cs.Mismatch + " cases).\n")
 		sb.WriteString("Print M.\n")
+		sb.WriteString(cs.Extra)
 		name := filepath.Join(dir, fmt.Sprintf("cases_%s_%03d.v", cs.Prop, k))
 		if err := os.WriteFile(name, []byte(sb.String()), 0o644); err != nil {
 			t.Fatal(err)
